@@ -287,6 +287,11 @@ def ITE(c, a, b):
         return b
     if a == b:
         return a
+    if isinstance(a, tuple) and a and a[0] == "ite" and a[3] == b and b != NONE:
+        # nested guards with a common alternative: `x if (c and d) else y` (optional chains `... else None` keep their steps)
+        return ITE(AND(c, a[1]), a[2], b)
+    if isinstance(a, tuple) and a and a[0] == "ite" and a[2] == b and b != NONE:
+        return ITE(AND(c, NOT(a[1])), a[3], b)
     if c[0] == "not" or (c[0] == "cmp" and c[1] in ("isnot", "ne", "notin", "le")):
         return ("ite", NOT(c), b, a)
     return ("ite", c, a, b)
